@@ -88,6 +88,20 @@ void rec_view(const char *ad, const char *it, const char *tag, const M &A, const
         std::vector<long long> ptr(1, 0), col; std::vector<double> val;
         for (size_t i = 0; i < n; ++i) { for (auto a = backend::row_begin(V, i); a; ++a) { col.push_back((long long)a.col()); val.push_back((double)a.value()); } ptr.push_back((long long)col.size()); }
         vr::obj q; q.i("n", n).i("m", m).ints("ptr", ptr).ints("col", col).dbls("val", val, shift); if (!q.exact) o.exact = false;
+        // row iterators are independent objects: two iterators (rows i and i+1, and twice the same row) are alive at the same
+        // time on this thread and advanced in turn; each must enumerate exactly what it enumerates when read alone
+        bool indep = true;
+        for (size_t i = 0; indep && i < n; ++i) for (int same_row = 0; indep && same_row < 2; ++same_row) {
+            size_t j = same_row ? i : (i + 1) % n;
+            auto a = backend::row_begin(V, i); auto b = backend::row_begin(V, j);
+            size_t la = (size_t)(ptr[i + 1] - ptr[i]), lb = (size_t)(ptr[j + 1] - ptr[j]);
+            for (size_t t = 0; indep && t < std::max(la, lb); ++t) {
+                if (t < la) { indep = (bool)a && (long long)a.col() == col[ptr[i] + t] && (double)a.value() == val[ptr[i] + t]; if (indep) ++a; }
+                if (indep && t < lb) { indep = (bool)b && (long long)b.col() == col[ptr[j] + t] && (double)b.value() == val[ptr[j] + t]; if (indep) ++b; }
+            }
+            if (indep) indep = !(bool)a && !(bool)b;
+        }
+        o.b("iters_independent", indep);
         M C(V);
         bool same = C.nrows == n && C.ncols == m && (size_t)C.ptr[n] == col.size();
         for (size_t i = 0; same && i <= n; ++i) same = C.ptr[i] == ptr[i];
@@ -157,6 +171,27 @@ template <class SI> void v_eigen(const M &A, const char *it, const char *tag) {
     for (size_t i = 0; i < A.nrows; ++i) for (ptrdiff_t p = A.ptr[i]; p < A.ptr[i+1]; ++p) t.push_back(Eigen::Triplet<double, SI>((SI)i, (SI)A.col[p], A.val[p]));
     E.setFromTriplets(t.begin(), t.end()); E.makeCompressed();
     rec_view("eigen", it, tag, A, E);
+    {   // uncompressed storage mode: reserve() + insert() without makeCompressed() (free room after every row)
+        EM U(A.nrows, A.ncols);
+        std::vector<SI> room(A.nrows); for (size_t i = 0; i < A.nrows; ++i) room[i] = (SI)(A.ptr[i+1] - A.ptr[i] + 1 + i % 3);
+        U.reserve(room);
+        for (size_t i = 0; i < A.nrows; ++i) for (ptrdiff_t p = A.ptr[i]; p < A.ptr[i+1]; ++p) U.insert((SI)i, (SI)A.col[p]) = A.val[p];
+        std::string x = std::string("\"compressed\":") + (U.isCompressed() ? "true" : "false");
+        rec_view("eigen/uncompressed", it, tag, A, U, x);
+        // insert() after compression: a compressed matrix that got one more entry (and the source with it)
+        if (A.nrows > 0 && A.ncols > 0) {
+            size_t ri = A.nrows - 1 - (A.nrows > 1 ? 1 : 0); ptrdiff_t cj = -1;
+            for (size_t j = 0; j < A.ncols && cj < 0; ++j) { bool used = false; for (ptrdiff_t p = A.ptr[ri]; p < A.ptr[ri+1]; ++p) if (A.col[p] == (ptrdiff_t)j) used = true; if (!used) cj = (ptrdiff_t)j; }
+            if (cj >= 0) {
+                EM W(E); W.insert((SI)ri, (SI)cj) = 5.0;
+                std::vector<std::vector<std::pair<int,double>>> rows(A.nrows);
+                for (size_t i = 0; i < A.nrows; ++i) { for (ptrdiff_t p = A.ptr[i]; p < A.ptr[i+1]; ++p) rows[i].push_back(std::make_pair((int)A.col[p], A.val[p])); if (i == ri) rows[i].push_back(std::make_pair((int)cj, 5.0)); }
+                auto A2 = vr::from_rows((int)A.nrows, (int)A.ncols, rows);
+                std::string x2 = std::string("\"compressed\":") + (W.isCompressed() ? "true" : "false");
+                rec_view("eigen/insert after compression", it, tag, *A2, W, x2);
+            }
+        }
+    }
     std::vector<SI> ptr = conv<SI>(A.ptr, A.ptr + A.nrows + 1), col = conv<SI>(A.col, A.col + A.nnz); std::vector<double> val(A.val, A.val + A.nnz);
     col.push_back(0); val.push_back(0);
     Eigen::Map<EM> Em(A.nrows, A.ncols, A.nnz, ptr.data(), col.data(), val.data());       // keeps the user's (possibly unsorted) order
@@ -248,11 +283,11 @@ static void v_scale_diag(const M &A0, vr::rng &g, const char *tag) {
 }
 
 // ---- block adapter (sorted rows only: its documentation requires them), b = 2, 3; the block CRS it produces
-template <int B> void v_block(const M &A, const char *tag) {
+template <int B, class Src> void v_block_src(const M &A, const Src &S, const char *ad, const char *tag) {
     typedef static_matrix<double, B, B> Blk;
-    vr::obj o; o.str("k", "block").str("ad", "block_matrix").i("b", B).str("tag", tag);
+    vr::obj o; o.str("k", "block").str("ad", ad).i("b", B).str("tag", tag);
     try {
-        auto V = adapter::block_matrix<Blk>(A);
+        auto V = adapter::block_matrix<Blk>(S);
         size_t n = backend::rows(V), m = backend::cols(V);
         o.i("rows", n).i("cols", m).i("nnz", backend::nonzeros(V));
         std::ostringstream q; q << "{\"n\":" << n << ",\"m\":" << m << ",\"ptr\":[0"; std::ostringstream cs, vs; size_t cnt = 0;
@@ -275,6 +310,17 @@ template <int B> void v_block(const M &A, const char *tag) {
     } catch (const std::exception &e) { o.str("exc", e.what()); }
     put(o);
 }
+
+template <int B> void v_block(const M &A, const char *tag) { v_block_src<B>(A, A, "block_matrix", tag); }
+// the block adapter keeps B row iterators of its source alive at once: over the crs_builder callback and over a tuple
+template <int B> void v_block_builder(const M &A, const char *tag) {
+    if (A.nrows != A.ncols) return;
+    row_builder rb; rb.A = &A; auto MB = adapter::make_matrix(rb);
+    v_block_src<B>(A, MB, "block_matrix(crs_builder)", tag);
+    size_t n = A.nrows; std::vector<int> ptr = conv<int>(A.ptr, A.ptr + n + 1), col = conv<int>(A.col, A.col + A.nnz); std::vector<double> val(A.val, A.val + A.nnz);
+    v_block_src<B>(A, std::tie(n, ptr, col, val), "block_matrix(crs_tuple)", tag);
+}
+template <int B> void v_block_builder(const M &A, const char *tag);
 
 static void all_views(const M &A, vr::rng &g, int rot, const char *tag, bool every) {
     bool square = A.nrows == A.ncols;
@@ -328,7 +374,7 @@ static void mode_small() {
         all_views(*vr::mk_pattern(3, 2, mask, 0, rev), g, rot++, "rect", false);
     }
     // block adapter: every sorted 4x4 pattern with b = 2, 6x6 samples with b = 2 and 3
-    for (unsigned mask = 0; mask < (1u << 16); mask += (vr::thorough() ? 1 : 5)) v_block<2>(*vr::mk_pattern(4, 4, mask, 0, false), "small");
+    for (unsigned mask = 0; mask < (1u << 16); mask += (vr::thorough() ? 1 : 5)) { auto A = vr::mk_pattern(4, 4, mask, 0, false); v_block<2>(*A, "small"); if (mask % 3 == 0) v_block_builder<2>(*A, "small"); }
 }
 
 static void mode_random(uint64_t seed, int reps) {
@@ -341,6 +387,8 @@ static void mode_random(uint64_t seed, int reps) {
         int nb = g.range(1, 10), mb = g.range(1, 10);
         { auto S = vr::random_int(g, nb * 2, mb * 2, 0.1 + 0.4 * g.unit(), 5, false); v_block<2>(*S, "rand"); }
         { auto S = vr::random_int(g, nb * 3, mb * 3, 0.1 + 0.3 * g.unit(), 5, false); v_block<3>(*S, "rand"); }
+        { auto S = vr::random_int(g, nb * 2, nb * 2, 0.1 + 0.4 * g.unit(), 5, false); v_block_builder<2>(*S, "rand"); }
+        { auto S = vr::random_int(g, nb * 3, nb * 3, 0.1 + 0.3 * g.unit(), 5, false); v_block_builder<3>(*S, "rand"); }
     }
     // empty matrix (no rows): the interface must still answer
     { auto A = vr::from_rows(0, 0, {}); v_tuple<int,int>(*A, "int", "empty"); v_zero_copy<int,int,true>(*A, "int", "empty"); }
